@@ -180,6 +180,33 @@ def layerTarFile (tmpDir arch : Text) : Text := join2 tmpDir (T "apko-" ++ arch 
 /-- `filepath.Join(wd, arch)`: the per-architecture working directory of `apko lock` / `show-packages` / `dot` -/
 def archWorkDir (wd arch : Text) : Text := join2 wd arch
 
+/-- `strings.NewReplacer("/", "%2F", ".", "%2E").Replace` -/
+def escapeArch (s : Text) : Text :=
+  s.flatMap fun c => if c = '/' then T "%2F" else if c = '.' then T "%2E" else [c]
+
+/-- `types.ParseArchitecture` after the repair of F18f: the apk-style and OCI-style names of the known
+architectures, then any other string — escaped when it is not one plain path element -/
+def parseArch (s : Text) : Text :=
+  if s = T "x86" then T "386"
+  else if s = T "x86_64" ∨ s = T "amd64" then T "amd64"
+  else if s = T "aarch64" ∨ s = T "arm64" then T "arm64"
+  else if s = T "armhf" ∨ s = T "arm/v6" then T "arm/v6"
+  else if s = T "armv7" ∨ s = T "arm/v7" then T "arm/v7"
+  else if s = T "loong64" ∨ s = T "loongarch64" then T "loong64"
+  else if s = dot ∨ s = dotdot ∨ '/' ∈ s then escapeArch s else s
+
+/-- `Architecture.ToAPK`: what every file and directory name derived from an architecture is made of; `a` is
+the value as it is held (parsed before or not: `ToAPK` parses again) -/
+def toAPK (a : Text) : Text :=
+  let p := parseArch a
+  if p = T "386" then T "x86"
+  else if p = T "amd64" then T "x86_64"
+  else if p = T "arm64" then T "aarch64"
+  else if p = T "arm/v6" then T "armhf"
+  else if p = T "arm/v7" then T "armv7"
+  else if p = T "loong64" then T "loongarch64"
+  else p
+
 /-! ### base32 (`encoding/base32.StdEncoding`, RFC 4648 with `=` padding) -/
 
 def b32Alphabet : List Char :=
